@@ -289,6 +289,16 @@ impl Array4 {
         self.estimator.set_hip_accum(value);
     }
 
+    pub(super) fn is_out_of_order(&self) -> bool {
+        self.estimator.is_out_of_order()
+    }
+
+    /// Carries the estimator state of a source sketch over to this (converted) copy.
+    pub(super) fn set_estimator_state(&mut self, hip_accum: f64, out_of_order: bool) {
+        self.estimator.set_out_of_order(out_of_order);
+        self.estimator.set_hip_accum(hip_accum);
+    }
+
     /// Check if the sketch is empty (all slots are zero)
     pub fn is_empty(&self) -> bool {
         self.num_at_cur_min == (1 << self.lg_config_k) && self.cur_min == 0
